@@ -165,8 +165,17 @@ def run(ctx):
             stream(ctx, n, order, range(1 << (1 << n)))
     for order in gen.orders(3):
         stream(ctx, 3, order, sorted(rng.sample(range(256), 10 if q else 256)))
+    # (x_i xor x_j) /\ x_k /\ x_l and the like: a node two levels above the terminals that is
+    # reached through a regular AND a complemented edge within one count
+    shared = []
+    for i, j in itertools.combinations(range(4), 2):
+        k, l = [v for v in range(4) if v not in (i, j)]
+        x = [T.var(v, 4) for v in range(4)]
+        shared.append((x[i] ^ x[j]) & x[k] & x[l])
+        shared.append(T.ite(x[i], T.ite(x[j], x[k], T.neg(x[k] & x[l], 4), 4),
+                            T.ite(x[j], T.full(4), T.neg(x[k] & x[l], 4), 4), 4))
     for order in rng.sample(gen.orders(4), 2 if q else 12):
-        stream(ctx, 4, order, [rng.getrandbits(16) for _ in range(3 if q else 30)])
+        stream(ctx, 4, order, [rng.getrandbits(16) for _ in range(3 if q else 30)] + (rng.sample(shared, 4) if q else shared))
     # supports that skip levels in managers with many declared variables
     for positions, total in (((1, 8), 10), ((2, 9), 12), ((7, 8), 9), ((0, 3, 16), 17)):
         # (fixed cases: a deep level together with a shallow one, beyond the sizes at which the
